@@ -286,9 +286,10 @@ func (r *productRun) refString() string {
 // PoolSelfTest makes sure the pool hooks control the order of hand-out in this process.
 func PoolSelfTest() error {
 	art.VerifPoolDrain()
-	// release a few node4s through real trees
-	t := art.NewUnsignedBinaryTree[uint8, int]()
+	// release a few node4s through real trees (a fresh tree per round: the self-test must not depend on how an
+	// emptied tree behaves, that is the property's business)
 	for round := 0; round < 3; round++ {
+		t := art.NewUnsignedBinaryTree[uint8, int]()
 		t.Insert(1, 1)
 		t.Insert(2, 1)
 		t.Delete(1)
@@ -301,14 +302,13 @@ func PoolSelfTest() error {
 	// build three distinct nodes and check the refill order is the Get order
 	var three [4][]art.VerifPooled
 	three[0] = l[0]
-	for len(three[0]) < 3 {
-		t.Insert(1, 1)
-		t.Insert(2, 1)
-		t.Insert(3, 1)
-		t.Insert(4, 1)
-		t.Insert(5, 1) // grows: node4 released
+	for attempt := 0; len(three[0]) < 3; attempt++ {
+		if attempt == 10 {
+			return fmt.Errorf("pool self-test: growing a 4-slot node ten times released %d node4s in all", len(three[0]))
+		}
+		t := art.NewUnsignedBinaryTree[uint8, int]()
 		for k := uint8(1); k <= 5; k++ {
-			t.Delete(k)
+			t.Insert(k, 1) // the fifth grows the node: node4 released
 		}
 		m := art.VerifPoolDrain()
 		three[0] = append(three[0], m[0]...)
